@@ -13,7 +13,9 @@ equivalent chain before any rule runs; anything else is left as it is (the rules
     case _:                        else
     case name:                     else, with `name = s` first
     case P as name:                <P>, with `name = s` first in the body
-    case P if guard:               <P> and guard
+    case P if guard:               <P> and guard (captured names in the guard stand for what they capture)
+    case A(x=n) | (B() as n):      one arm per alternative, same body (alternatives that capture)
+    match (e1, e2): case (P, Q):   <e1 matches P> and <e2 matches Q> (tuple display as subject, sequence patterns of its length)
 
 The subject is evaluated once: a name or dotted name is used as it is, anything else is bound to a temporary first.
 """
@@ -54,6 +56,13 @@ def _cond(subj: ast.AST, pat: ast.AST, binds: list[ast.stmt]) -> ast.AST | None:
             if c is not None:
                 parts.append(c)
         return parts[0] if len(parts) == 1 else ast.BoolOp(op=ast.And(), values=parts)
+    if isinstance(pat, ast.MatchSequence):
+        if not isinstance(subj, ast.Tuple) or len(subj.elts) != len(pat.patterns) or any(isinstance(p, ast.MatchStar) for p in pat.patterns):
+            raise _Unsupported("sequence pattern on a subject that is not a tuple display of that length")
+        parts2 = [c for e, p in zip(subj.elts, pat.patterns) for c in [_cond(e, p, binds)] if c is not None]
+        if not parts2:
+            return None
+        return parts2[0] if len(parts2) == 1 else ast.BoolOp(op=ast.And(), values=parts2)
     if isinstance(pat, ast.MatchOr):
         if all(isinstance(p, ast.MatchClass) and not p.patterns and not p.kwd_patterns for p in pat.patterns):
             cls: ast.AST = pat.patterns[0].cls  # type: ignore[union-attr]
@@ -71,26 +80,82 @@ def _cond(subj: ast.AST, pat: ast.AST, binds: list[ast.stmt]) -> ast.AST | None:
 def _rewrite(m: ast.Match, counter: list[int]) -> list[ast.stmt] | None:
     pre: list[ast.stmt] = []
     subj: ast.AST = m.subject
-    if not _simple(subj):
+    if isinstance(subj, ast.Tuple) and not any(isinstance(e, ast.Starred) for e in subj.elts):
+        # a tuple display: each element is evaluated once, in order
+        elts: list[ast.AST] = []
+        for e in subj.elts:
+            if _simple(e) or isinstance(e, ast.Constant):
+                elts.append(e)
+            else:
+                counter[0] += 1
+                tmp = f"_match_subject_{counter[0]}"
+                pre.append(ast.Assign(targets=[ast.Name(id=tmp, ctx=ast.Store())], value=e))
+                elts.append(ast.Name(id=tmp, ctx=ast.Load()))
+        subj = ast.Tuple(elts=elts, ctx=ast.Load())
+    elif not _simple(subj):
         counter[0] += 1
         tmp = f"_match_subject_{counter[0]}"
         pre.append(ast.Assign(targets=[ast.Name(id=tmp, ctx=ast.Store())], value=subj))
         subj = ast.Name(id=tmp, ctx=ast.Load())
     chain: list[tuple[ast.AST | None, list[ast.stmt], ast.match_case]] = []
+
+    def captures(p: ast.AST) -> bool:
+        return any((isinstance(x, ast.MatchAs) and x.name is not None) or (isinstance(x, ast.MatchStar) and x.name is not None) for x in ast.walk(p))
+
+    cases: list[ast.match_case] = []
+    for case in m.cases:
+        if isinstance(case.pattern, ast.MatchOr) and captures(case.pattern):
+            # alternatives that capture: one arm each, same guard and body (first match wins either way)
+            for alt in case.pattern.patterns:
+                import copy as _copy
+
+                cases.append(ast.match_case(pattern=alt, guard=_copy.deepcopy(case.guard), body=_copy.deepcopy(case.body)))
+                ast.copy_location(cases[-1].pattern, case.pattern) if not hasattr(alt, "lineno") else None
+        else:
+            cases.append(case)
     try:
-        for case in m.cases:
+        for case in cases:
             binds: list[ast.stmt] = []
             c = _cond(subj, case.pattern, binds)
             if case.guard is not None:
+                guard = case.guard
                 if binds:
-                    raise _Unsupported("guard on a capturing pattern")
-                c = case.guard if c is None else ast.BoolOp(op=ast.And(), values=[c, case.guard])
+                    # the guard reads captured names before the body binds them: they stand for what they capture
+                    cap = {b.targets[0].id: b.value for b in binds if isinstance(b, ast.Assign) and isinstance(b.targets[0], ast.Name)}  # type: ignore[attr-defined]
+
+                    class G(ast.NodeTransformer):
+                        def visit_Name(self, n: ast.Name):  # noqa: N802
+                            if isinstance(n.ctx, ast.Load) and n.id in cap:
+                                return ast.parse(ast.unparse(cap[n.id]), mode="eval").body
+                            return n
+
+                    guard = G().visit(ast.parse(ast.unparse(guard), mode="eval").body)
+                c = guard if c is None else ast.BoolOp(op=ast.And(), values=[c, guard])
             if c is not None:
                 for x in ast.walk(c):
                     if not hasattr(x, "lineno"):
                         ast.copy_location(x, case.pattern)
                 ast.fix_missing_locations(c)
-            chain.append((c, binds + list(case.body), case))
+            # a captured name that the body only reads stands for what it captured (`case ListValue(items=items)` -> value.items)
+            body = list(case.body)
+            keep: list[ast.stmt] = []
+            for b in binds:
+                nm = b.targets[0].id  # type: ignore[attr-defined]
+                stored = any(isinstance(x, ast.Name) and x.id == nm and isinstance(x.ctx, (ast.Store, ast.Del)) for st_ in body for x in ast.walk(st_)) or any(isinstance(x, ast.Name) and x.id == nm and isinstance(x.ctx, (ast.Store, ast.Del)) for k_ in keep for x in ast.walk(k_))
+                later_binds = binds[binds.index(b) + 1:]
+                if stored or not _simple(b.value) or any(isinstance(x, ast.Name) and x.id == nm for lb in later_binds for x in ast.walk(lb)):  # type: ignore[attr-defined]
+                    keep.append(b)
+                    continue
+                txt = ast.unparse(b.value)  # type: ignore[attr-defined]
+
+                class S(ast.NodeTransformer):
+                    def visit_Name(self, n: ast.Name):  # noqa: N802
+                        if isinstance(n.ctx, ast.Load) and n.id == nm:
+                            return ast.copy_location(ast.parse(txt, mode="eval").body, n)
+                        return n
+
+                body = [ast.fix_missing_locations(S().visit(st_)) for st_ in body]
+            chain.append((c, keep + body, case))
             if c is None:
                 break  # irrefutable: later cases are unreachable
     except _Unsupported:
